@@ -69,6 +69,10 @@ class SimFault(ConnectionError):
     """Injected transport / storage / hook fault."""
 
 
+class SimTimeout(TimeoutError):
+    """A timeout raised by the task body itself (a client library's own timeout), not by the timeout label."""
+
+
 EXC = {
     "ValueError": ValueError,
     "KeyError": KeyError,
@@ -79,7 +83,24 @@ EXC = {
     "SimBaseError": SimBaseError,
     "ZeroDivisionError": ZeroDivisionError,
     "SimBadStr": SimBadStr,
+    "TimeoutError": TimeoutError,
+    "SimTimeout": SimTimeout,
 }
+
+
+def _kick_exc(name: str) -> BaseException:
+    """The exception a failing broker.kick() raises: transport errors and the framework's own error classes."""
+    import taskiq.exceptions as tex
+    table = {"SimFault": SimFault, "RuntimeError": RuntimeError, "TimeoutError": TimeoutError, "OSError": OSError}
+    if name in table:
+        return table[name]("kick failed")
+    cls = getattr(tex, name, None)
+    if cls is None:
+        return SimFault("kick failed")
+    try:
+        return cls(task_name="unknown-to-the-broker") if name == "UnknownTaskError" else cls()
+    except Exception:  # noqa: BLE001  (constructor protocol of the error classes changed)
+        return SimFault("kick failed")
 
 
 # --------------------------------------------------------------------------- labels
@@ -219,8 +240,8 @@ class SimBroker(AsyncBroker):
             await asyncio.sleep(net["pre_us"] / 1e6)
         if net.get("fail"):
             w.fired("kick_fail")
-            w.rec("kick_fail", None, k=k, n=n)
-            raise SimFault("kick failed")
+            w.rec("kick_fail", None, k=k, n=n, exc=net.get("fail_exc", "SimFault"))
+            raise _kick_exc(net.get("fail_exc", "SimFault"))
         raw = bytes(message.message)
         w.sent_raw.setdefault(k, []).append(raw)
         w.server.transit(net.get("delay_us", 0), raw, k)
@@ -247,9 +268,12 @@ class SimBroker(AsyncBroker):
             # pop + yield with no await in between: a cancelled look-ahead never
             # swallows a message.
             lf = w.config.get("listen_fail_after")
-            if lf is not None and self.worker is not None and w.extra.get("listen_failed", 0) < 1 and not w.extra.get("probe_started") \
-                    and len(w.taken.get((self.worker, self.gen), [])) >= lf:
-                w.extra["listen_failed"] = 1
+            if isinstance(lf, int):
+                lf = [lf]
+            nf = w.extra.get("listen_failed", 0)
+            if lf is not None and self.worker is not None and nf < len(lf) and not w.extra.get("probe_started") \
+                    and len(w.taken.get((self.worker, self.gen), [])) >= lf[nf]:
+                w.extra["listen_failed"] = nf + 1
                 w.fired("listen_fail")
                 w.rec("listen_fail", None, w=self.worker)
                 # messages sitting in the failed receiver's hand-over queue are gone with it (the runner is cancelled)
@@ -852,6 +876,12 @@ def make_task_func(world: World, tspec: dict) -> Any:
     if tspec.get("ctx"):
         params.append(inspect.Parameter("ctx", inspect.Parameter.KEYWORD_ONLY, default=TaskiqDepends(), annotation=Context))
         annotations["ctx"] = Context
+    if tspec.get("uparam"):
+        # a parameter whose annotation keeps bool / int / float / str apart (values that compare and hash equal across messages)
+        from typing import Union
+        ann = Union[bool, int, float, str, None]
+        params.append(inspect.Parameter("u", inspect.Parameter.KEYWORD_ONLY, default=None, annotation=ann))
+        annotations["u"] = ann
     params.append(inspect.Parameter("kwargs", inspect.Parameter.VAR_KEYWORD))
     roots = [s for s, _ in tspec.get("root", [])]
 
@@ -955,6 +985,8 @@ def make_endpoint(world: World, node: str, worker: Optional[int] = None, gen: in
     br.with_result_backend(SimResultBackend(world))
     mws: List[TaskiqMiddleware] = []
     for i, ms in enumerate(cfg.get("middlewares", [])):
+        if ms.get("late") and not world.extra.get("late_mw_added"):
+            continue        # added to the running brokers by the "add_late_mw" op
         if ms.get("retry") is not None:
             r = ms["retry"]
             mws.append(SimpleRetryMiddleware(
@@ -1308,7 +1340,9 @@ async def _send(world: World, client: SimBroker, m: dict) -> None:
             await kicker.kiq(*args, **(m.get("kwargs") or {}))
             world.rec("send_ok", None, k=k)
     except BaseException as exc:  # noqa: BLE001
-        world.rec("send_err", None, k=k, exc=type(exc).__name__, cause=type(exc.__cause__).__name__ if exc.__cause__ else None)
+        from taskiq.exceptions import SendTaskError
+        world.rec("send_err", None, k=k, exc=type(exc).__name__, cause=type(exc.__cause__).__name__ if exc.__cause__ else None,
+                  is_send_task_error=isinstance(exc, SendTaskError))
     finally:
         world.pending_sends -= 1
         world.rec("send_done", None, k=k)
@@ -1456,6 +1490,20 @@ def _arm_op(world: World, op: dict) -> None:
             do_crash(world, op.get("w", 0), op.get("redeliver_us", 1000))
         elif kind == "restart":
             do_restart(world, op.get("w", 0))
+        elif kind == "add_late_mw":
+            # broker.add_middlewares() on the running worker brokers: the retry middleware is installed after the workers have
+            # already processed (and failed) messages
+            world.extra["late_mw_added"] = True
+            world.fired("middleware_added_late")
+            for i in world.workers.values():
+                br = i.get("broker")
+                if br is None or not i.get("alive"):
+                    continue
+                for ms in world.config.get("middlewares", []):
+                    if ms.get("late") and ms.get("retry") is not None:
+                        r = ms["retry"]
+                        br.add_middlewares(SimpleRetryMiddleware(default_retry_count=r.get("count", 3), default_retry_label=r.get("label", False),
+                                                                 no_result_on_retry=r.get("no_result_on_retry", True)))
         elif kind == "reregister":
             # the same task name is registered again (on every live endpoint) with a function of the other kind (sync <-> async)
             ti = op.get("task", 0)
